@@ -1304,6 +1304,10 @@ void _mi_abandoned_reclaim_all(mi_heap_t* heap, mi_segments_tld_t* tld) {
   mi_arena_field_cursor_t current;
   _mi_arena_field_cursor_init(heap, tld->subproc, true /* visit all, blocking */, &current);
   while ((segment = _mi_arena_segment_clear_abandoned_next(&current)) != NULL) {
+    if (!_mi_heap_memid_is_suitable(heap, segment->memid)) {
+      _mi_arena_segment_mark_abandoned(segment);  // leave segments of (exclusive) arenas we may not use
+      continue;
+    }
     mi_segment_reclaim(segment, heap, 0, NULL, tld);
   }
   _mi_arena_field_cursor_done(&current);
